@@ -140,6 +140,8 @@ def run(ctx):
     ctx.assumptions = ["a &mut borrow ends every &'db borrow", "interned client obligation (checked per trace)",
                        "fewer than 2^64 retained revisions per interned ingredient"]
     ctx.write_evidence("proof")
+    import shutil as _sh
+    _sh.rmtree(life_diff.TRACE_DIR, ignore_errors=True)
 
 
 def replay(ctx, rp):
